@@ -280,3 +280,18 @@ M("c17-impl-param-order", "C17", "C17.SIG", (PROM, "    def gauge(self, name: st
 M("c17-noproc-consumes-budget", "C17", "C17.NOPROC", (METR, "        if self.__has_metric_processor():\n            return super().can_trigger()\n        return False", "        return super().can_trigger()"))
 M("c17-labels-of-other-metric", "C17", "C17.SIG", (METR, "            labels, value = self._process_metric(metric)", "            labels, value = self._process_metric(metrics[0])"))
 R("c17-local-alias", "C17", (METR, "            for processor in self.trigger_context.config.metric_processors:", "            cfg = self.trigger_context.config\n            for processor in cfg.metric_processors:"))
+
+# ------------------------------------------------------------------ C13
+TPCS = "src/deep/config/tracepoint_config.py"
+M("c13-location-handle", "C13", "C13.HANDLE", (TPCS, "        self._custom_ids[tp_id] = config\n        self.__trigger_update(None, None)\n        return tp_id", "        self._custom_ids[config.id] = config\n        self.__trigger_update(None, None)\n        return config.id"))
+M("c13-constant-id", "C13", "C13.HANDLE", (TPCS, "        tp_id = str(uuid.uuid4())\n", "        tp_id = \"%s:%s\" % (path, line)\n"))
+M("c13-remove-raises", "C13", "C13.MATCH", (TPCS, "        config = self._custom_ids.pop(_id, None)\n", "        config = self._custom_ids.pop(_id)\n"))
+M("c13-remove-all-on-location", "C13", "C13.MATCH", (TPCS, "            if cfg is config:\n                del self._custom[idx]\n                self.__trigger_update(None, None)\n                return\n", "            if cfg.id == config.id:\n                del self._custom[idx]\n        self.__trigger_update(None, None)\n"))
+M("c13-replace-custom", "C13", "C13.ADD", (TPCS, "        self._custom.append(config)\n", "        self._custom = [config]\n"))
+M("c13-custom-dropped-on-update", "C13", "C13.ADD", (TPCS, "listeners.config_change(ts, old_hash, current_hash, old_config, new_config + self._custom)", "listeners.config_change(ts, old_hash, current_hash, old_config, new_config or self._custom)"))
+M("c13-swapped-args", "C13", "C13.ADD", (TPCS, "config = build_trigger(tp_id, path, line, args, watches, metrics)", "config = build_trigger(tp_id, path, line, args, metrics, watches)"))
+M("c13-no-notify-on-remove", "C13", "C13.MATCH", (TPCS, "                del self._custom[idx]\n                self.__trigger_update(None, None)\n                return", "                del self._custom[idx]\n                return"))
+M("c13-api-drops-watches", "C13", "C13.API", (DEEP, "tp_id = self.config.tracepoints.add_custom(path, line, args, watches, metrics)", "tp_id = self.config.tracepoints.add_custom(path, line, args, [], metrics)"))
+M("c13-unregister-wrong-id", "C13", "C13.API", (DEEP, "        self.__tpServ.remove_custom(self.__id)", "        self.__tpServ.remove_custom(str(self.__id).lower() + \"\")"))
+M("c13-keyed-by-other", "C13", "C13.MATCH", (TPCS, "        self._custom_ids[tp_id] = config\n", "        self._custom_ids[config.id] = config\n"))
+R("c13-return-trigger-object-id", "C13", (TPCS, "        tp_id = str(uuid.uuid4())\n", "        tp_id = uuid.uuid4().hex\n"))
